@@ -225,7 +225,7 @@ def gen_fn(src, item, canary=False):
     for a, b in rewrites:
         out = out.replace(a, b)
     for a, b in re_rewrites:
-        out = re.sub(a, lambda m_: b, out, count=1, flags=re.S)
+        out = re.sub(a, lambda m_: m_.expand(b) if '\\g<' in b else b, out, count=1, flags=re.S)
     spec = ''.join(s['payload'] for s in subs.get('spec', []))
     text = hdr + '\n' + spec + '    {' + out + '}\n'
     info = {'fn': item['name'], 'source_sha256': sha256(f.header + '{' + body0 + '}'),
